@@ -18,6 +18,7 @@ type serializer struct {
 	sb    strings.Builder
 	ids   map[any]int
 	marks map[any]string // extra per-container annotation (e.g. "!" = under a freeze obligation)
+	onPath map[any]bool  // messages being serialised (cycle guard)
 }
 
 func (s *serializer) ref(x any) bool {
@@ -53,6 +54,17 @@ func (s *serializer) message(m protoreflect.Message) {
 	if s.ref(m) {
 		return
 	}
+	// Messages are trees; if aliasing has made one contain itself, say so once
+	// instead of descending for ever (only reachable when ids are not tracked).
+	if s.onPath == nil {
+		s.onPath = map[any]bool{}
+	}
+	if s.onPath[m] {
+		s.sb.WriteString("<contains itself>")
+		return
+	}
+	s.onPath[m] = true
+	defer delete(s.onPath, m)
 	type fv struct {
 		fd protoreflect.FieldDescriptor
 		v  protoreflect.Value
